@@ -56,6 +56,12 @@ def scripted():
                 ops += [["link", fn, "V0", cname, "V1", True, "X0"], ["link", fn, "V0", cname, "V2", True, "X1"],
                         ["link", fn, "V2", cname, "V1", True, "X2"], ["link", fn, "V0", cname, "V1", True, "X3"]]
                 out.append(ops)
+        # ... and a's own list may hold an n-ended link / an edge that lost its other end BEHIND the joining link
+        for awkward in ([["mkl", "M1", ["V0", "V2"], "list"]],
+                        [["mke", "E8", "DirectedEdge", "V0", "V2"], ["v_rm_link", "V2", "E8"]]):
+            out.append([["mkv", "V0", "Vertex", [], []], ["mkv", "V1", "VSub", [], []], ["mkv", "V2", "Vertex", [], []],
+                        ["mke", "E0", "UnDirectedEdge", "V1", "V0"], ["mke", "E1", "DirectedEdge", "V0", "V1"]] + awkward +
+                       [["link", fn, "V0", cname, "V1", True, "X0"], ["link", fn, "V1", cname, "V0", True, "X1"]])
     return out
 
 
